@@ -120,8 +120,8 @@ def direct_ranges(rng, out, thorough):
                 pass
             out.evaluations += 1
     # ---- solid angle conventions
-    for _ in range(n):
-        radec, degs = rng.random() < 0.5, rng.random() < 0.5
+    for i_ in range(max(n, 32)):
+        radec, degs = bool(i_ & 1), bool(i_ & 2)             # all four conventions take their turn
         kappa = rng.choice([1e-2, 0.5, 5.0, 100.0, 600.0])
         prop = P.IsotropicSolidAngle('a', 'b', kappa=kappa, radec=radec, degs=degs)
         prop.bit_generator = numpy.random.PCG64(1)
